@@ -33,7 +33,15 @@ def gen_case(rng):
         mask = [any(obs['scan_events'][k] <= t < obs['scan_events'][k + 1] for k in picked) for t in range(obs['T'])]
         hist['calls'] = [dict(bare=False, crits=[['dumps', 'index', {'ix': ['m', mask], 'arr': True}]],
                               reset=None, extra={})]
-    return dict(kind='iter', hist=hist, which=rng.choice(['scans', 'compscans']), nested=rng.random() < 0.3)
+    which, nested = rng.choice(['scans', 'compscans']), rng.random() < 0.3
+    if len(obs['cs_labels']) >= 2 and rng.random() < 0.2:
+        # compound scans with a nested scans() under a prior scans= / compscans= criterion (the criterion must still
+        # be in force inside the later compound scans and after the iteration)
+        which, nested = 'compscans', True
+        key, table = rng.choice([('scans', stubds.STATES), ('scans', stubds.STATES), ('compscans', stubds.LABELS)])
+        items = [rng.choice(table)] if rng.random() < 0.7 else ['~' + rng.choice(table)]
+        hist['calls'] = [dict(bare=False, crits=[[key, 'items', {'items': items, 'as': 'list'}]], reset=None, extra={})]
+    return dict(kind='iter', hist=hist, which=which, nested=nested)
 
 
 def run_iter(case):
